@@ -25,17 +25,23 @@ class C03(Prop):
     modelled = "convex.py: all_combinations_of_bounds, get_P_from_A (corner order), in_hull_from_A data flow via transform_values; estimator.in_hull (relative/absolute/normalized dispatch). Opaque: Delaunay.find_simplex, convex_combination NNLS"
 
     def sizes(self, tier):
-        return 400 if tier == "quick" else 6000
+        return 600 if tier == "quick" else 8000
 
     def gen(self, rng, n, tier):
         cases = []
         while len(cases) < n:
-            norm = rng.random() < 0.2
+            norm = rng.random() < 0.3
             fin = True if norm else (rng.random() < 0.75)
-            sys = gs.gen_system(rng, mrange=(2, 5), nrange=(1, 8), finite_ub=fin,
+            mm = rng.randint(2, 5)
+            sys = gs.gen_system(rng, mrange=(mm, mm), nrange=((mm, 8) if (norm and rng.random() < 0.8) else (1, 8)), finite_ub=fin,
                                 Kkind=(rng.choice(["none", "scalar", "vector"]) if norm else None))
             relative = rng.random() < 0.75
             m, nn = sys["m"], sys["n"]
+            if not fin and rng.random() < 0.4:
+                # unbounded sources that cannot be switched off below a level of 1 .. 3 (the gamut is a cone with its apex at lb, not at 1)
+                lb2 = np.array([rng.randint(8, 24) / 8 for _ in range(nn)])
+                if gs.well_scaled(sys["A"], lb2, sys["ub"], sys["K"], sys["baseline"]):
+                    sys = dict(sys, lb=lb2)
             if sys["Kkind"] == "matrix" and rng.random() < 0.6:
                 # strongly mixing adaptation matrices with receptor-specific baselines (the translation K.baseline then matters for membership)
                 K2 = np.eye(m) * rng.choice([1.0, 0.5, 2.0])
@@ -47,7 +53,14 @@ class C03(Prop):
                 if gs.well_scaled(sys["A"], sys["lb"], sys["ub"], K2, base2):
                     sys = dict(sys, K=K2, baseline=base2, bkind="vector")
             lb = sys["lb"]; ubf = np.where(np.isfinite(sys["ub"]), sys["ub"], lb + 8.0)
-            tk = rng.choice(["interior", "interior", "nearin", "outside", "outside", "nearout", "nearout", "beyond", "beyond", "face", "vertex", "near", "far"])
+            tk = rng.choice(["interior", "interior", "nearin", "outside", "outside", "nearout", "nearout", "beyond", "beyond", "face", "vertex", "near", "far", "dim", "below"])
+            if norm and rng.random() < 0.6:
+                # a baseline concentrated on one receptor: its chromaticity (the dark corner of the chromatic gamut) is then an extreme point
+                base2 = np.array([rng.randint(0, 2) / 4 for _ in range(m)]); base2[rng.randrange(m)] = rng.randint(16, 48) / 4
+                if gs.well_scaled(sys["A"], sys["lb"], sys["ub"], sys["K"], base2):
+                    sys = dict(sys, baseline=base2, bkind="vector")
+            if norm and rng.random() < 0.6:
+                tk = rng.choice(["interior", "nearin", "dim", "dim"])     # chromatic membership hinges on every vertex of the cloud, the dark corner included
             via_adapt = None
             if relative and not norm and sys["Kkind"] in ("none", "vector") and rng.random() < 0.35:
                 # the adaptation is reached through register_system_adaptation AFTER a first gamut query
@@ -62,6 +75,12 @@ class C03(Prop):
             elif tk == "nearin":
                 # strictly inside, but only 1/128 of the range away from one or more faces
                 x = np.array([lb[i] + (ubf[i] - lb[i]) * rng.choice([1, 1, 127, 127, 64, 32, 96]) / 128 for i in range(nn)])
+            elif tk == "dim":
+                # all sources close to their lower bound: near the dark corner of the gamut
+                x = np.array([lb[i] + (ubf[i] - lb[i]) * rng.choice([1, 1, 2, 4]) / 64 for i in range(nn)])
+            elif tk == "below":
+                # would need sources below their lower bound (0.4 .. 0.85 of lb): outside whenever lb > 0
+                x = np.array([lb[i] * rng.choice([0.4, 0.6, 0.85]) for i in range(nn)])
             elif tk == "beyond":
                 x = ubf.copy()
             elif tk in ("face", "nearout") and rng.random() < 0.5:
@@ -139,7 +158,7 @@ class C03(Prop):
         ubf = np.where(np.isfinite(ub), ub, lb + 8.0)
         extent = float(np.max(np.abs(Ap) @ (ubf - lb))) or 1.0
         kind, x, marg, y, mu = 2, np.zeros(n), np.zeros(n), np.zeros(m), 0.0
-        if case["tk"] in ("interior", "nearin"):
+        if case["tk"] in ("interior", "nearin", "dim"):
             kind = 0; x = np.asarray(case["x"], dtype=float)
             marg = np.array([(ubf[i] - lb[i]) / (16 if case["tk"] == "interior" else 256) for i in range(n)])
         else:
